@@ -179,12 +179,22 @@ def export_nodes(roots, sample, with_values=True):
                 choice = None
             deps_ = [visit(choice)] if choice is not None else []
             return add(obj, ["D", deps_, deps_], proxy=proxy_of(obj))
-        if isinstance(obj, MultiplexerDistribution):
+        if isinstance(obj, MultiplexerDistribution) and getattr(obj, "_conditioned", obj) is not obj:
+            # conditioned multiplexer.  The code as it is ignores the proxy (index first, then the TypeError of an
+            # unsampled index): exported as a multiplexer.  A codec that follows the proxy instead is exported by
+            # its observed walks below.
+            eops, dops = probe_walks(obj, sample)
+            as_is = eops == dops and len(eops) >= 1 and eops[0] == ("S", obj.index) and \
+                all(op[0] == "S" and any(op[1] is o for o in obj.options) for op in eops[1:])
+        else:
+            as_is = True
+        if isinstance(obj, MultiplexerDistribution) and as_is:
             ix = visit(obj.index)
             opts = [visit(o) for o in obj.options]
             return add(obj, ["M", ix, opts], proxy=proxy_of(obj))
-        if type(obj).serializeValue not in (Samplable.serializeValue, Distribution.serializeValue) or \
-                type(obj).deserializeValue not in (Samplable.deserializeValue, Distribution.deserializeValue):
+        if not isinstance(obj, MultiplexerDistribution) and (
+                type(obj).serializeValue not in (Samplable.serializeValue, Distribution.serializeValue) or
+                type(obj).deserializeValue not in (Samplable.deserializeValue, Distribution.deserializeValue)):
             unsupported.append("override:" + type(obj).__name__)
         eops, dops = probe_walks(obj, sample)
         if len(eops) == 1 and eops[0][0] == "V":
@@ -607,7 +617,9 @@ def do_codec(job):
             try:
                 v = S.readInt(s)
                 out.append("OK %d %s" % (v, s.read().hex() or "-"))
-            except (SerializationError, IndexError):
+            except (SerializationError, IndexError, OverflowError):
+                # OverflowError: a length field beyond sys.maxsize handed to stream.read (wrapped into
+                # SerializationError by readSamplable at the scene level)
                 out.append("ERR trunc")
         elif kind == "RB":
             data = bytes.fromhex(arg) if arg != "-" else b""
@@ -615,7 +627,9 @@ def do_codec(job):
             try:
                 v = S.readBytes(s)
                 out.append("OK S %s | %s" % (v.hex() or "-", s.read().hex() or "-"))
-            except (SerializationError, IndexError):
+            except (SerializationError, IndexError, OverflowError):
+                # OverflowError: a length field beyond sys.maxsize handed to stream.read (wrapped into
+                # SerializationError by readSamplable at the scene level)
                 out.append("ERR trunc")
     return out
 
